@@ -12,7 +12,8 @@ package obiapat
 //      sequence and its error count is the edit distance between the pattern and the span, within the budget;
 //      BestMatch's span lies inside the sequence with the same guarantee;
 //  (4) reverse-complementing a pattern does not change the pattern it was built from, is repeatable and involutive;
-//  (5) patterns of 33 to 64 symbols (sampled, not exhaustive): hits against the naive matcher.
+//  (5) patterns of 33 to 64 symbols (sampled, not exhaustive): hits against the naive matcher;
+//  (6) obligatory positions ('#'): no hit with a mismatch on such a position.
 // Injected into pkg/obiapat with `go test -overlay`; nothing is written into the repository.
 
 import (
@@ -24,7 +25,7 @@ import (
 	"git.metabarcoding.org/obitools/obitools4/obitools4/pkg/obiseq"
 )
 
-var verifIupac = map[byte]string{'a': "a", 'c': "c", 'g': "g", 't': "t", 'r': "ag", 'y': "ct", 'n': "acgt", 'w': "at", 's': "cg"}
+var verifIupac = map[byte]string{'a': "a", 'c': "c", 'g': "g", 't': "t", 'r': "ag", 'y': "ct", 'n': "acgt", 'w': "at", 's': "cg", 'k': "gt", 'm': "ac", 'b': "cgt", 'd': "agt", 'h': "act", 'v': "acg"}
 
 func verifBaseMatch(p, s byte) bool {
 	for i := 0; i < len(verifIupac[p]); i++ {
@@ -74,7 +75,7 @@ func TestVerifBoundedPatternMatcher(t *testing.T) {
 			first = msg
 		}
 	}
-	patterns := []string{"acgt", "aacc", "gtag", "argt", "acny", "ttttt", "acgta"}
+	patterns := []string{"acgt", "aacc", "gtag", "argt", "acny", "ttttt", "acgta", "gkac", "camt", "tbdg", "ahva"}
 	alpha := "acgt"
 	var seqs []string
 	var gen func(prefix []byte)
@@ -219,6 +220,52 @@ func TestVerifBoundedPatternMatcher(t *testing.T) {
 						}
 					}
 				}()
+			}
+		}
+	}
+	// (6) obligatory positions ('#' after a symbol: no mismatch allowed there), mismatch mode: hits of AC#GT, A#CGT#
+	// and ACG#T with up to 2 errors against the naive matcher that refuses a mismatch on a '#' position
+	for _, spec := range []struct {
+		pat  string
+		core string
+		obl  []bool
+	}{{"ac#gt", "acgt", []bool{false, true, false, false}}, {"a#cgt#", "acgt", []bool{true, false, false, true}}, {"acg#t", "acgt", []bool{false, false, true, false}}} {
+		for maxerr := 0; maxerr <= 2; maxerr++ {
+			p, err := MakeApatPattern(spec.pat, maxerr, false)
+			if err != nil {
+				fail(fmt.Sprintf("pattern=%s:cannot-compile:%v", spec.pat, err))
+				continue
+			}
+			for _, s := range seqs {
+				if len(s) <= len(spec.core) {
+					continue
+				}
+				cases++
+				aseq, _ := MakeApatSequence(obiseq.NewBioSequence("x", []byte(s), ""), false)
+				want := map[int]int{}
+				for q := 0; q+len(spec.core) <= len(s); q++ {
+					mm, bad := 0, false
+					for k := 0; k < len(spec.core); k++ {
+						if spec.core[k] != s[q+k] {
+							mm++
+							if spec.obl[k] {
+								bad = true
+							}
+						}
+					}
+					if mm <= maxerr && !bad {
+						want[q] = mm
+					}
+				}
+				got := map[int]int{}
+				for _, m := range p.FindAllIndex(aseq, 0, -1) {
+					if m[1] <= len(s) {
+						got[m[0]] = m[2]
+					}
+				}
+				if fmt.Sprint(got) != fmt.Sprint(want) {
+					fail(fmt.Sprintf("pattern=%s,maxerr=%d,seq=%s:hits=%v,want=%v", spec.pat, maxerr, s, got, want))
+				}
 			}
 		}
 	}
